@@ -50,3 +50,37 @@ MANIFEST_TEXT["C20"] = {
     "note": "Partial: OS timers and a wrapped getter that never returns are outside the model; virtual-time traces are exact (real time is only sanity-checked at millisecond scale in the thorough tier). Trusted: Lean kernel (axioms propext/Classical.choice/Quot.sound at most), extractor, harness, testing/synctest. When the retry timer and the deadline fire at the same virtual instant Go may take either branch; the model is proved for every resolution and the comparison follows the branch the real code took. Known finding F13 (not fixed, spec clauses conflict at Max = 0): MaxRetryDelay <= 0 gives zero-length waits, a busy loop until the deadline and a random number of extra attempts after it.",
     "technique": "Lean 4 proof over an executable model + differential correspondence in virtual time (testing/synctest, exhaustive grid)",
 }
+
+PROPS['C17'] = {'rule': 'the real rtmr.ExtendDigestClient / rtmr.ExtendEventLogClient (and go-configfs-tsm v0.3.2 rtmr.ExtendDigest underneath) against a recording in-memory '
+         'configfsi.Client with real SHA-384 registers: (a) every single request of index{-2^31,-1,0,1,2,3,4,5,2^31-1} x (digest length{0,1,47,48,49,64} + '
+         'algorithm{SHA-384,SHA-256,SHA-512,0,SHA3-384 (available, 48-byte output)} x log{empty,1 byte,1 KiB}) = 189 requests x 4 pre-existing states (no '
+         'entry / entry bound to the index / eight junk entries: plain file, empty, text, unreadable, 2^64-1, >2^64, +n, -1 / entry bound to another index); '
+         '(b) ALL sequences of length <=3 (quick; each under all 4 pre-existing states) or <=5 (thorough; 271 452 sequences, lengths 4-5 rotate the state) '
+         "over a 12-letter sub-alphabet (valid digests for 0,1,2,2',3; valid logs for 2,3; index 4; index -1; 47-byte digest; SHA-256; empty log); (c) random "
+         '20-request histories with random digests/logs, random pre-existing entries (index spelled n, n\\n, 0n\\n\\n, 000n) and random initial register '
+         'values. Compared with the model: per-request result, the complete canonical operation trace (ReadDir/ReadFile/MkdirTemp/WriteFile with entry names '
+         'and data) and the four register values (the model computes SHA-384 itself). A case is non-trivial when at least one request is valid; distinct = '
+         'distinct case line',
+ 'trusted_base': ['go-configfs-tsm v0.3.2 rtmr.ExtendDigest is modelled as pinned (search/create/write order) and re-validated by every correspondence run; '
+                  'the in-memory TSM of the driver (kernel-like: EBUSY on a second binding of an index, EINVAL on a non-48-byte digest, digest write extends '
+                  "the register of the entry's index) stands for the kernel's configfs-tsm, which is out of scope",
+                  'SHA-384 is a parameter of the theorems (any function with 48-byte output); the executable model instantiates it with a SHA-384 written in '
+                  'Lean (constants computed from the primes), whose agreement with crypto/sha512 is checked by every compared register and event-log digest'],
+ 'assumptions': ['64-bit Go int (int(uint64) wraps at 2^63)',
+                 'the TSM starts well formed: distinct entry names, at most one entry bound per index (the kernel enforces this with EBUSY)',
+                 'client operations on existing entries do not fail spontaneously (ReadDir/MkdirTemp/WriteFile I/O errors are not modelled)']}
+
+MANIFEST_TEXT['C17'] = {'text': 'Lean theorems for every hash function with 48-byte output, every TSM state, request and request history (invalid_request_touches_nothing: no client '
+         'operation, error, state unchanged; valid_request_one_extend: success, exactly one digest write of the requested digest / sha384(log) to an entry '
+         'bound to the index, re-used if one exists, otherwise created by one MkdirTemp + one index write, only that register extended; wellFormed_step / '
+         'at_most_one_entry_per_index invariant; registers_are_extend_chains by induction over the history), over an executable model of rtmr/extend.go on top '
+         "of go-configfs-tsm v0.3.2's entry search, tied to the code by an exhaustive differential run (all single requests of the alphabet x 4 pre-existing "
+         'TSM states, all sequences up to length 3 / 5 over 12 letters, random 20-request histories) of the real ExtendDigestClient / ExtendEventLogClient '
+         'against a recording configfsi.Client with real SHA-384 registers, comparing results, complete operation traces and register values, plus an '
+         'independent Go oracle of the statement.',
+ 'note': 'Trusted: Lean kernel (axioms propext/Classical.choice/Quot.sound at most), harness. go-configfs-tsm is modelled as pinned (v0.3.2) and re-validated '
+         "by the same correspondence run; the real kernel TSM is out of scope (the driver's in-memory TSM implements: digest write extends the register bound "
+         "to the entry's index, EBUSY on double binding, EINVAL on wrong digest length). SHA-384 is a parameter of the theorems. The literals 0, 3 (index "
+         'range), 48 (crypto.SHA384.Size()) and 6 (crypto.SHA384) are inline in extend.go / the Go standard library and not regenerated; 48 and the range are '
+         'tied by rfl/decide to abi.RtmrSize and abi.rtmrsCount. I/O failures of the client are not modelled.',
+ 'technique': 'Lean 4 proof over an executable model + differential correspondence (exhaustive bounded histories + random)'}
